@@ -331,7 +331,7 @@ func TestWiring(t *testing.T) {
 		}
 		same := len(plain.Reacts) == len(derived.Reacts)
 		for i := 0; same && i < len(plain.Reacts); i++ {
-			same = plain.Reacts[i].Healthy == derived.Reacts[i].Healthy && plain.Reacts[i].Obs == derived.Reacts[i].Obs && plain.Reacts[i].T == derived.Reacts[i].T
+			same = plain.Reacts[i].Healthy == derived.Reacts[i].Healthy && plain.Reacts[i].Obs == derived.Reacts[i].Obs
 		}
 		if !same {
 			fail(&derived, "policy changes of the diagnosis fail-safe differ from the reactions of a bare watcher on the same script: %s", plain.String())
@@ -341,7 +341,7 @@ func TestWiring(t *testing.T) {
 			r.ClassN("haproxy-management-calls", int64(len(tp.calls)))
 		}
 		v, _ := checkTrace(s, &derived)
-		if v.qualifying > 0 && v.nonQualFlips > 0 {
+		if (len(derived.Reacts) > 0 || v.obligations > 0) && v.nonQualFlips > 0 {
 			r.Class("nontrivial")
 			r.NonTrivial("w/"+fingerprintOf(k), func() any { return wiringRepr{kaseRepr: k.repr(nil), Derived: derived.String()} })
 		}
